@@ -589,12 +589,12 @@ class Prog:
     def renderable(self, t, Q, env):
         """can the type be written in this scope? (a local type named T/U shadows the package-level type of the same name)"""
         k = t[0]
-        if k == "n":
-            nt = t[1]
-            return nt.local or nt.pkg is not Q or nt.name not in env["shadow"]
-        if k == "alias":
-            al = t[1]
-            return al.local or al.pkg is not Q or al.name not in env["shadow"]
+        if k == "n" or k == "alias":
+            o = t[1]
+            if o.local:
+                # a local object can only be written while it is the current binding of its name
+                return any(x is o for x in env["locals"])
+            return o.pkg is not Q or o.name not in env["shadow"]
         if k in ("arr", "inst"):
             return self.renderable(t[2], Q, env)
         return self.renderable(t[1], Q, env)
